@@ -33,14 +33,20 @@ class SynthNode(BaseNode):
         self.ast = None
 
 
+# NOTE:
+#   the registry is this module's namespace, so a rule type called SynthNode
+#   replaces the global of that name: synthesize() keeps its own reference
+__synth_base: type = SynthNode
+
+
 def synthesize(name: str, bases: tuple[type, ...], **kwargs: Any) -> type:
     # by Apalala 2026/02/16 <- 2017
     # by Gemini  2026/02/16
     if not isinstance(bases, tuple):
         raise TypeError(f'bases must be a tuple, not {type(bases)}')
 
-    if SynthNode not in bases:
-        bases = (*bases, SynthNode)
+    if __synth_base not in bases:
+        bases = (*bases, __synth_base)
 
     def build_body(ns: dict[str, Any]) -> None:
         ns.update({"__module__": __name__})
@@ -69,5 +75,5 @@ def registered_synthetics() -> dict[str, SynthNode]:
     return {
         name: value
         for name, value in __registry.items()
-        if isinstance(value, SynthNode)
+        if isinstance(value, __synth_base)
     }
